@@ -218,3 +218,88 @@ End KL.
 Lemma C19_example lgam eg (H : HypFns RNum) :
   approximate_gamma_mom RNum (RF lgam eg) H 2 4 = Ok (2 * 2 / 4 - 1, 2 / 4).
 Proof. apply mom_ok; lra. Qed.
+
+(** ** approx.approximate_gamma_iqr: the control flow of the quantile fit.
+    [E] (scipy's gammaincinv and the AS 239 derivative) and [H] are arbitrary: whatever the Newton
+    iteration does, a successful return is either the CAPPED shape with the rate that matches the
+    lower quantile, or a positive shape <= cap with the rate that matches the lower quantile. *)
+Section IQR.
+  Variable lgam : R -> R.
+  Variable eg : R.
+  Variable H : HypFns RNum.
+  Variable E : ExtFns RNum.
+  Notation F := (RF lgam eg).
+  Notation ginv := (e_gammainc_inv RNum E).
+
+  Definition iqr_post (q1 x1 cap : R) (r : R * R) : Prop :=
+    let '(a, b) := r in
+    (a = cap - 1 /\ b = ginv cap q1 / x1) \/ (0 < a + 1 /\ a + 1 <= cap /\ b = ginv (a + 1) q1 / x1).
+
+  Lemma iqr_tail q1 x1 cap al a b :
+    (if negb (Rltb 0 al) then Err EKLFail
+     else if Rltb cap al then Ok (cap - 1, ginv cap q1 / x1)
+     else Ok (al - 1, ginv al q1 / x1)) = Ok (a, b) -> iqr_post q1 x1 cap (a, b).
+  Proof.
+    destruct (Rltb 0 al) eqn:E0; cbn [negb]; [|discriminate]. apply Rltb_true in E0.
+    destruct (Rltb cap al) eqn:E1.
+    - intros Eq. injection Eq as <- <-. left. split; reflexivity.
+    - apply Rltb_false in E1. intros Eq. injection Eq as <- <-. right.
+      replace (al - 1 + 1) with al by ring. repeat split; try assumption; reflexivity.
+  Qed.
+
+  Lemma iqr_ok q1 q2 x1 x2 cap a b :
+    approximate_gamma_iqr RNum F H E q1 q2 x1 x2 cap = Ok (a, b) -> iqr_post q1 x1 cap (a, b).
+  Proof.
+    unfold approximate_gamma_iqr. runfold. cbn [orb negb andb].
+    destruct (Reqb x2 x1).
+    { intros Eq. injection Eq as <- <-. left. split; reflexivity. }
+    destruct (Rltb q1 q2 && Rltb x1 x2); cbn [negb]; [|discriminate].
+    set (alpha0 := ln (q2 / q1) / ln (x2 / x1)).
+    destruct (Rltb cap alpha0).
+    { intros Eq. injection Eq as <- <-. left. split; reflexivity. }
+    rewrite (Rltb_f 100 0) by lra.
+    match goal with |- (match ?L with Ok _ => _ | Err _ => _ end) = _ -> _ => destruct L as [c1|?]; [|discriminate] end.
+    match goal with |- (match ?L with Ok _ => _ | Err _ => _ end) = _ -> _ => destruct L as [c2|?]; [|discriminate] end.
+    match goal with |- (match ?L with Ok _ => _ | Err _ => _ end) = _ -> _ => destruct L as [[[d al] it]|?]; [|discriminate] end.
+    apply iqr_tail.
+  Qed.
+
+  Lemma div_mul_cancel (g x : R) : x <> 0 -> g / x * x = g.
+  Proof. intros Hx. field. exact Hx. Qed.
+
+  (** in both cases the LOWER quantile of the returned gamma is the requested one, given that the two
+      incomplete-gamma functions are mutually inverse *)
+  Lemma iqr_lower_quantile (ginc : R -> R -> R) q1 q2 x1 x2 cap a b :
+    (forall s q, ginc s (ginv s q) = q) -> x1 <> 0 ->
+    approximate_gamma_iqr RNum F H E q1 q2 x1 x2 cap = Ok (a, b) ->
+    (a + 1 <= cap) /\ ginc (a + 1) (b * x1) = q1.
+  Proof.
+    intros Hinv Hx Eq. apply iqr_ok in Eq. cbn [iqr_post] in Eq.
+    destruct Eq as [[Ea Eb]|(Hpos & Hle & Eb)].
+    - assert (Es : a + 1 = cap) by lra. rewrite Es. split; [lra|]. rewrite Eb.
+      rewrite (div_mul_cancel _ x1 Hx). apply Hinv.
+    - split; [exact Hle|]. rewrite Eb.
+      rewrite (div_mul_cancel _ x1 Hx). apply Hinv.
+  Qed.
+
+  (** equal quantiles: the capped shape; unsorted quantiles: the exception; a lower bound above the
+      cap: the capped shape without iterating *)
+  Lemma iqr_equal q1 q2 x cap :
+    approximate_gamma_iqr RNum F H E q1 q2 x x cap = Ok (cap - 1, ginv cap q1 / x).
+  Proof. unfold approximate_gamma_iqr. runfold. rewrite Reqb_t. reflexivity. Qed.
+
+  Lemma iqr_unsorted q1 q2 x1 x2 cap : x2 <> x1 -> ~ (q1 < q2 /\ x1 < x2) ->
+    approximate_gamma_iqr RNum F H E q1 q2 x1 x2 cap = Err EKLFail.
+  Proof.
+    intros Hne Hns. unfold approximate_gamma_iqr. runfold. rewrite (Reqb_f x2 x1 Hne).
+    destruct (Rltb q1 q2) eqn:E1; destruct (Rltb x1 x2) eqn:E2; cbn [andb negb]; try reflexivity.
+    exfalso. apply Hns. split; apply Rltb_true; assumption.
+  Qed.
+
+  Lemma iqr_capped_at_once q1 q2 x1 x2 cap : q1 < q2 -> x1 < x2 -> cap < ln (q2 / q1) / ln (x2 / x1) ->
+    approximate_gamma_iqr RNum F H E q1 q2 x1 x2 cap = Ok (cap - 1, ginv cap q1 / x1).
+  Proof.
+    intros Hq Hx Hc. unfold approximate_gamma_iqr. runfold. rewrite (Reqb_f x2 x1) by lra.
+    rewrite (Rltb_t q1 q2 Hq), (Rltb_t x1 x2 Hx). cbn [andb negb]. rewrite (Rltb_t _ _ Hc). reflexivity.
+  Qed.
+End IQR.
